@@ -76,6 +76,10 @@ class _Push:
 
 def tp_args(tp):
     args = {'fire_count': '-1', 'fire_period': '0'}
+    if tp.get('faulty'):
+        args['log_msg'] = 'bad x={x'          # malformed template: the formatter raises
+        args['snapshot'] = 'no_collect'
+        return args
     if tp['span'] == 'capture':
         args['stage'] = 'line_capture' if tp['kind'] == 'line' else 'method_capture'
     elif tp['span'] != 'none':
@@ -291,6 +295,7 @@ class Scenario:
                 out.append({'ev': r['ev'], 'thr': r['thr'], 'file': r['file'], 'fn': r['fn'], 'line': r['line'],
                             'fired': sorted(r['fired']),
                             'closed': sorted([c[0], renum.get(c[1], 0)] for c in r['closed'])})
-        hdr = {'tps': [dict(id=t['id'], kind=t['kind'], file=t['file'], name=t['name'], line=t['line'], span=t['span'])
+        hdr = {'tps': [dict(id=t['id'], kind=t['kind'], file=t['file'], name=t['name'], line=t['line'], span=t['span'],
+                            faulty=bool(t.get('faulty', False)))
                        for t in self.model_tps]}
         return [hdr] + out
